@@ -50,7 +50,7 @@ def checkMomRun (sat : Bool) (n : Nat) (decay ratio pm : Rat) (steps : List MomS
 
 def handleMom (toks : List String) : List String × List String :=
   match toks with
-  | [id, sat, steps, mirror, _kind, tick, _seed, n, decay, ratio, demand, _scale, _pc, _path, offset] =>
+  | [id, sat, steps, mirror, _kind, tick, _seed, n, decay, ratio, demand, _scale, _pc, _path, offset, _skew] =>
     match (val n).toNat?, parseRat (val decay), parseRat (val ratio), (val tick).toNat?, parseRat (val demand), (val offset).toNat? with
     | some n, some decay, some ratio, some tick, some demand, some offset =>
       -- saturated runs use a scale so large that tanh is exactly 1: the market-order probability is demand / n
